@@ -12,7 +12,7 @@ from mc.core import Acc, Hang, fp_hash, horizon
 ID = "C12"
 RULE = ("E-INPUT: every (domain, range, query) with domain/range end points from 13 floats of magnitude 1e-6..1e9 (both signs, "
         "both orders, a != b) + a seeded value + near-tie domains v..v(1+2^-40|1e-10|3e-7), queries = end points, interior and exterior points; exact affine reference in "
-        "rationals; clamp on/off. E-HIST: BFS over every history of domain(3)/range(3)/clamp(2)/nice()/nice(3)/copy() calls on "
+        "rationals; clamp on/off. E-HIST: BFS over every history of domain(6)/range(6)/clamp(2)/nice()/nice(3)/copy() calls on "
         "a pool of <=3 scales up to the depth bound (quick 4, thorough 6), each state rebuilt by replaying the history on fresh "
         "real objects, dedup by object-graph fingerprint incl. aliasing; invariants: end points of the reported domain map to "
         "the reported range, operations on one scale leave every other scale's observations unchanged. "
@@ -113,8 +113,8 @@ def judge_grid(a, b, r0, r1, acc=None):
 
 
 # ------------------------------------------------------------------ E-HIST
-DOM = [[0, 1], [10, -10], [0.13, 9.7]]
-RNG = [[0, 1], [100, 0], [-5, 5]]
+DOM = [[0, 1], [10, -10], [0.13, 9.7], [-1, 3], [-2, 3], [0, 1.0000000003]]
+RNG = [[0, 1], [100, 0], [-5, 5], [-1, 640], [-2, 640], [0, 1.0000000005]]
 OPS = ([("domain", d) for d in DOM] + [("range", r) for r in RNG]
        + [("clamp", True), ("clamp", False), ("nice", None), ("nice", 3), ("copy", None)])
 PROBES = (-1, 0, .5, 1, 3, 9.7, 20)
@@ -169,6 +169,13 @@ def check_history(hist):
     if bad:
         return bad
     i = hist[-1][0]
+    # a setter sets: the scale must report exactly what it was just given
+    if hist[-1][1] == "domain" and list(after[i][0]) != [float(v) for v in hist[-1][2]]:
+        return ("C12:hist-setter-ignored", "after domain(%r) the scale reports the domain %r (history %r)"
+                % (hist[-1][2], list(after[i][0]), hist))
+    if hist[-1][1] == "range" and list(after[i][1]) != list(hist[-1][2]):
+        return ("C12:hist-setter-ignored", "after range(%r) the scale reports the range %r (history %r)"
+                % (hist[-1][2], list(after[i][1]), hist))
     for k in range(len(before)):
         if k != i and before[k] != after[k]:
             return ("C12:hist-interference", "%s(%r) on scale #%d changed scale #%d: %r -> %r"
